@@ -3,7 +3,7 @@
 From Coq Require Import List NArith ZArith Bool Lia.
 Import ListNotations.
 Require Import Verif.Lib.Wire Verif.Gen.Facts_C03 Verif.Model.C03 Verif.Gen.Facts_C05 Verif.Model.C05.
-Require Verif.Gen.Facts_C18 Verif.Model.C18.
+Require Verif.Gen.Facts_C18 Verif.Model.C18_base Verif.Model.C18.
 Local Close Scope N_scope.
 Local Open Scope nat_scope.
 
@@ -17,7 +17,7 @@ Proof. vm_compute. reflexivity. Qed.
 
 Lemma secured_outermost :
   exists ds mid,
-    C18.sorted C18.default_derivers = C18.Sorted ds /\
+    C18_base.sorted C18.default_derivers = C18_base.Sorted ds /\
     map fst ds = nm_secured_view :: mid ++ [nm_mapped_view] /\
     ~ In nm_secured_view mid /\
     deriver_names = Facts_C18.dv_outer ++ map fst ds.
